@@ -264,7 +264,11 @@ class HeapExec(symexec.Executor):
             return self.list_at(st, base, idx)
         if isinstance(base, DictH):
             k = self.key(idx)
-            self.oblige('key_present', st, ir.ne(self.fmap(st, 'has:' + base.attr, 2).read(base.owner, k), 0), n, 'dict key')
+            present = ir.ne(self.fmap(st, 'has:' + base.attr, 2).read(base.owner, k), 0)
+            if getattr(self, '_try_conds', None) is not None:
+                self._try_conds.append(present)       # inside try: a missing key is the exceptional path, not an obligation
+            else:
+                self.oblige('key_present', st, present, n, 'dict key')
             return self.fmap(st, 'val:' + base.attr, 2).read(base.owner, k)
         raise Unsupported('subscript of %r' % (base,))
 
@@ -570,6 +574,7 @@ class HeapExec(symexec.Executor):
         self.written.add('len:' + lst.attr)
 
     def s_Assign(self, s, st):
+        self.pending_raise = []
         v = self.ev(s.value, st)
         if v == 'EMPTY_LIST' and isinstance(s.targets[0], ast.Name):
             # local list: its own attribute name, owner 0
@@ -580,7 +585,7 @@ class HeapExec(symexec.Executor):
             return [Outcome('fall', st)]
         for t in s.targets:
             self.assign_to(t, v, st)
-        return [Outcome('fall', st)]
+        return self._with_pending(st)       # a callee of the right-hand side may raise: that exit is an outcome of its own
 
     def s_Delete(self, s, st):
         for t in s.targets:
@@ -610,7 +615,26 @@ class HeapExec(symexec.Executor):
         return outs
 
     def s_Try(self, s, st):
-        raise Unsupported('try/except (line %s)' % s.lineno)
+        """the one idiom of the kernel: `try: <one statement reading dict entries> except: <handler>` -- the body has no side
+        effect before a KeyError can occur, so the handler starts from the state at the `try`"""
+        if s.finalbody or s.orelse or len(s.handlers) != 1 or len(s.body) != 1:
+            raise Unsupported('try/except shape (line %s)' % s.lineno)
+        h = s.handlers[0]
+        if not (h.type is None or (isinstance(h.type, ast.Name) and h.type.id in ('KeyError', 'Exception'))) or h.name is not None:
+            raise Unsupported('except clause (line %s)' % s.lineno)
+        if not isinstance(s.body[0], (ast.Return, ast.Assign)) or any(isinstance(x, ast.Call) for x in ast.walk(s.body[0])):
+            raise Unsupported('try body with calls (line %s)' % s.lineno)
+        pre = st.clone()
+        self._try_conds = []
+        try:
+            outs = self.block(s.body, st)
+            conds = self._try_conds
+        finally:
+            self._try_conds = None
+        ok = ir.band_(*conds) if conds else ir.TRUE
+        for o in outs: o.state.pc = ir.band_(o.state.pc, ok)
+        pre.pc = ir.band_(pre.pc, ir.not_(ok))
+        return outs + self.block(h.body, pre)
 
     # loops -----------------------------------------------------------------------------------
     def _loop_writes(self, body):
